@@ -36,6 +36,7 @@ func init() {
 		Compare:    cmpC02,
 		Shrink:     shrinkC02,
 		Workers:    8,
+		TimeoutMs:  10000,
 		Assumptions: []string{
 			"files are JSON; the YAML front end is not exercised",
 			"the in-memory reader resolves a location like a file system (path.Clean before lookup)",
@@ -249,6 +250,10 @@ func runC02(c hx.Case) any {
 	l.IsExternalRefsAllowed = true
 	l.ReadFromURIFunc = func(_ *openapi3.Loader, u *url.URL) ([]byte, error) {
 		reads = append(reads, u.String())
+		if len(reads) > 3000 {
+			// "loading always terminates": a legitimate load of these layouts needs a few hundred reads at most
+			panic("C02: more than 3000 file reads: loading does not terminate")
+		}
 		if d, ok := files[c02Key(u)]; ok {
 			return d, nil
 		}
